@@ -474,6 +474,31 @@ fn signals_and_keyboard(rep: &mut Report, variant_b: bool, nchanges: usize) {
 				));
 			}
 		}
+		// a volley: one signal of every kind back to back, no waiting in between (signals of different kinds are never
+		// coalesced by the OS, and a listener that exists is told about each kind): one event per kind and volley.
+		// Between two volleys everything is awaited, because two signals of the *same* kind may legitimately merge.
+		for volley in 0..3 {
+			let before: Vec<usize> = sent.iter().map(|(_, ws, _)| count(&batches, *ws)).collect();
+			let mut order: Vec<usize> = (0..sent.len()).collect();
+			order.rotate_left(volley * 2 % sent.len());
+			for i in &order {
+				kill(me, sent[*i].0).ok();
+			}
+			let t = std::time::Instant::now();
+			while t.elapsed() < Duration::from_secs(5) && sent.iter().zip(before.iter()).any(|((_, ws, _), b)| count(&batches, *ws) == *b) {
+				tokio::time::sleep(Duration::from_millis(1)).await;
+			}
+			tokio::time::sleep(Duration::from_millis(25)).await;
+			for ((ns, ws, _), b) in sent.iter().zip(before.iter()) {
+				let after = count(&batches, *ws);
+				if after != *b + 1 {
+					findings.push((
+						format!("C01/signal-volley/{}", if after == *b { "lost" } else { "duplicate" }),
+						format!("six different signals sent back to back: {ns:?} produced {} {ws:?} events", after - *b),
+					));
+				}
+			}
+		}
 		// keyboard EOF. Variant A: stdin (/dev/null for engine shards) is already at EOF, enabling the source must give
 		// exactly one event. Variant B: stdin is an open pipe; the source is enabled, other settings change a few times
 		// while it waits, then the write end is closed: exactly one event, also after further configuration changes.
